@@ -177,7 +177,7 @@ def run(ctx, model_ok):
     for it in items:
         digs, rnd, rz = it["_flags"]
         d_eff, rnd_eff, rz_eff = (2 if digs is None else digs), (True if rnd is None else rnd), (True if rz is None else rz)
-        for v in rng.sample(values(rng, d_eff), ctx.n(6, 30)):
+        for v in (values(rng, d_eff) + (values(rng, d_eff) if not ctx.quick() else []))[:ctx.n(6, 30)]:
             if abs(v) >= 1e15 or "e" in repr(v).lower():
                 continue
             word = it["names"][0]
